@@ -136,6 +136,20 @@ fixed("C18", "arith-rebind-widens-decimal", "e506288f9", "arithmetic over operan
 fixed("C13", "int-float-to-decimal-scale-power-overflow", "ffe02ed2c", "casting an integer or float to DECIMAL(p,s) with s >= 10 computed 10^s as an i32: panic 'attempt to multiply with overflow' at bind time in debug builds, wrong scale factor in release builds", ["C18", "C15", "C12"])
 fixed("C20", "substring-nonpositive-start-spins", "83436cfe3", "substring/substr with a start position <= 0 looped ~2^64 times ((from - 1) as usize): the statement never returned", ["C15", "C05"])
 fixed("C20", "lpad-rpad-count-shorter-than-string", "b621e368b", "lpad(s, n) with n below the character length sliced by bytes (panic inside a multi-byte character and for negative n: 'end byte index .. out of bounds', pad.rs); rpad(s, negative) returned s instead of the empty string", ["C15", "C05"])
+for _kind, _what in (("paren", "nested parentheses"), ("unary", "chained unary minus"), ("not", "chained NOT"), ("subquery", "nested derived tables (already at depth 400)"), ("scalar_subquery", "nested scalar subqueries"),
+                     ("case", "nested CASE"), ("fn", "nested function calls (already at depth 1000)"), ("list", "nested list literals"), ("cast", "chained :: casts"),
+                     ("add_chain", "a + chain of 10^4 terms"), ("and_chain", "an AND chain of 10^4 terms"), ("concat_chain", "a || chain of 10^4 terms"),
+                     ("cte_chain", "a chain of CTEs"), ("union_chain", "a chain of UNION ALL branches")):
+    F.append({"status": "open", "property": "C15", "id": f"stack-overflow-{_kind}", "signature": {"kind": "outcome", "class": "stack-overflow", "stress": _kind},
+              "what": f"unbounded recursion in parser/binder/planner: {_what} overflows the stack and aborts the process instead of returning an error (no depth limit anywhere in the pipeline)",
+              "example": f"python3 -c \"from vf.props.c15 import nest; print(nest('{_kind}', 10000))\""})
+fixed("C15", "ctas-failed-statement-leaves-table", "891fd3f17", "CREATE TABLE AS registered the table when the first batch arrived: a statement failing later (cast error on a later row) left the table in the catalog", ["C14"])
+B = "glaredb_core/src/functions/scalar/builtin/"
+panic("C15", "gcd-min-value-negate-panic", "attempt to negate with overflow", B + "numeric/gcd.rs", "gcd() takes abs() of the most negative integer: panic/wrap instead of an error (same family as the arithmetic overflow panics of C12)", "SELECT gcd('-9223372036854775808'::BIGINT, 2)", ["C05", "C12"])
+panic("C15", "lcm-overflow-panic", "attempt to multiply with overflow", B + "numeric/lcm.rs", "lcm() multiplies without a range check: panic/wrap instead of an error", "SELECT lcm(2147483647, 2147483646)", ["C05", "C12"])
+panic("C15", "lcm-min-value-negate-panic", "attempt to negate with overflow", B + "numeric/lcm.rs", "lcm() takes abs() of the most negative integer: panic/wrap instead of an error", "SELECT lcm('-9223372036854775808'::BIGINT, 2)", ["C05", "C12"])
+panic("C15", "epoch-multiply-overflow-panic", "attempt to multiply with overflow", B + "datetime/epoch.rs", "epoch()/epoch_ms() scale their argument to microseconds without a range check: panic/wrap instead of an error", "SELECT epoch(9223372036854775807)", ["C05", "C12"])
+fixed("C15", "left-right-split-part-min-count-negate", "c4c52b9fe", "left/right/split_part negated their count argument: i64::MIN panicked ('attempt to negate with overflow')", ["C20", "C05"])
 fixed("C17", "csv-last-record-without-newline-dropped", "901a81dae", "read_csv dropped the last record of a file not ending in a line break", ["C11"])
 fixed("C17", "csv-inference-ignores-unterminated-last-record", "8f587fc55", "dialect/type inference ignored the final record without line break even when the whole file was in the sample", [])
 fixed("C17", "csv-partial-record-leading-empty-fields-lost", "5395bbc8c", "leading empty fields of a record split across reads were lost (clear_completed discarded field ends of a partial record with no bytes yet), so results depended on read chunking/batch size", ["C03", "C16"])
